@@ -6,7 +6,19 @@ else raises Unsupported and the monitors stay silent for that case.
 """
 from fractions import Fraction
 
+import copy
 import pv
+
+
+def plain_container(v):
+    """lists / dicts / tuples whose leaves are numbers, bools, None or brace-free strings."""
+    if isinstance(v, (list, tuple)):
+        return all(plain_container(x) for x in v)
+    if isinstance(v, dict):
+        return all(plain_container(k) and plain_container(x) for k, x in v.items())
+    if isinstance(v, str):
+        return '{' not in v and '}' not in v
+    return v is None or isinstance(v, (bool, int))
 
 
 class Unsupported(Exception):
@@ -235,8 +247,10 @@ class Ref:
                             raise StepError('pypyr.errors.KeyNotInContextError', None)
                         v = self.fmt(self.ctx[ck]) if isinstance(self.ctx[ck], str) else self.ctx[ck]
                         if isinstance(v, (list, dict, tuple)) and not isinstance(self.ctx[ck], str):
-                            raise Unsupported('out container')
-                        parent_ctx[pk] = v
+                            if not plain_container(v):
+                                raise Unsupported('out container')
+                            v = copy.deepcopy(v)        # formatting a brace-free container rebuilds it
+                        parent_ctx[pk] = v              # the parent's key is REPLACED, whatever it held
             except StepError as e:
                 e.recorded = False      # a pype step records the child's failure itself
                 if raise_error:
